@@ -2,6 +2,7 @@ import Req.Driver.Proto
 import Req.H1.BufLine
 import Req.Client.Dump
 import Req.Driver.L.C13W
+import Req.Driver.L.C13R
 /-! Driver lanes of C13. -/
 namespace Req.Driver.L.C13
 open Req.Proto Req.H1.BufLine
@@ -290,6 +291,6 @@ def lanes : List (String × (List String → String)) := [
   ("c13preset", lanePreset),
   ("c13seq", laneSeq),
   ("c13life", laneLife)
-] ++ Req.Driver.L.C13W.lanes
+] ++ Req.Driver.L.C13W.lanes ++ Req.Driver.L.C13R.lanes
 
 end Req.Driver.L.C13
